@@ -39,6 +39,8 @@ def main(argv):
         for f in ("patch.diff", "demo.cxx", "meta.json"):
             shutil.copy(os.path.join(src, "_seed", f), os.path.join(d, f))
     meta = json.load(open(os.path.join(d, "meta.json")))
+    if "--detect" in argv:
+        meta["detect_with"] = argv[argv.index("--detect") + 1].split(",")
     patch = os.path.join(d, "patch.diff")
     demo = os.path.join(d, "demo.cxx")
     scratch = tempfile.mkdtemp(prefix="vseed-", dir="/tmp")
